@@ -12,9 +12,10 @@
 (*  Part 2  C12        NoPanic / SpansValid / Tiled / LexesAsIntended over *)
 (*                     a record of what the real front end did on a text   *)
 (*  Part 3  regex trees, the four precedence levels, normal form (WF),     *)
-(*                     minimal parenthesisation (Paren), printing (PrintTree), *)
-(*                     an independent precedence parser (Parse) and the    *)
-(*                     round-trip theorem  Parse(PrintTree(t)) = Paren(t)      *)
+(*                     minimal parenthesisation (Paren), printing          *)
+(*                     (PrintTree), an independent precedence parser       *)
+(*                     (Parse) and the round-trip theorem                  *)
+(*                     Parse(PrintTree(t)) = Paren(t)                      *)
 (*  Part 4  C13        SameStructure / NoSyntaxError / ReadsAsParsed over  *)
 (*                     a record (written structure, structure lelwel read) *)
 (***************************************************************************)
@@ -98,8 +99,8 @@ SeqToSetF(s) == {s[j] : j \in DOMAIN s}
 (*   r.panic      "" or the stage that panicked                            *)
 (*   r.bad_spans  label spans outside the text / off character boundaries  *)
 (*                as measured inside the harness                           *)
-(*   r.labels     (records re-measured through the exporter) raw label     *)
-(*                spans <<lo, hi>>, r.len the text length in bytes and     *)
+(*   r.labels     (optional; records re-measured through the exporter)     *)
+(*                label spans <<lo, hi>>, r.len the text length in bytes,  *)
 (*                r.inner the byte offsets that are NOT character          *)
 (*                boundaries                                               *)
 (*   r.tiled      the token spans tile the text                            *)
@@ -113,7 +114,7 @@ SpanOK(l, r) == /\ l[1] <= l[2]
                 /\ l[1] \notin SeqToSetF(r.inner)
                 /\ l[2] \notin SeqToSetF(r.inner)
 SpansValid(r) == /\ r.bad_spans = <<>>
-                 /\ \A j \in DOMAIN r.labels : SpanOK(r.labels[j], r)
+                 /\ "labels" \in DOMAIN r => \A j \in DOMAIN r.labels : SpanOK(r.labels[j], r)
 Tiled(r) == r.tiled
 
 Predicted(seq, sep) == "?" \notin SeqToSetF(Intended(seq, sep))
